@@ -333,6 +333,7 @@ def op_fidelity(crate):
         ws = [e for e in evs if e.kind == "write" and not getattr(e, "is_mask", False)]
         bad = [w.how for w in ws if w.how != "call:" + b.name]
         probs = []
+        undec = []
         if bad:
             probs.append("word updates use %s instead of %s" % (sorted(set(bad)), b.name))
         for w in ws:
@@ -346,6 +347,12 @@ def op_fidelity(crate):
                   or (mir.is_call(v, ("unwrap", "unwrap_or")) and mir.is_call(v[3][0], "get_int")))
             if mir.is_call(v, "unwrap_or") and not (v[3][1] == ("int", 0) or (v[3][1][0] == "assoc" and v[3][1][1] == "ZERO")):
                 ok = False
+            opaque_item = (v[0] == "field" and str(v[2]).isdigit() and v[1][:1] == ("iv",)) or v[:1] == ("iv",)
+            if not ok and opaque_item:
+                # the rhs word is an item of an iterator chain the desugaring does not model (`.chain(repeat(0))`, a mapped
+                # range, ...): which word it is is not decided here
+                undec.append("rhs word is an item of `%s`, an iterator this rule does not read" % mir.show(b.raw_iter_source((v[1] if v[0] == "field" else v)[1]))[:80])
+                continue
             if not ok:
                 probs.append("rhs word `%s` is not a raw/masked word of rhs with a zero default" % mir.show(v)[:60])
             if w.index is None or w.index[0] != "iv":
@@ -358,6 +365,9 @@ def op_fidelity(crate):
                     probs.append("rhs word index differs from the lhs word index")
         if not ws:
             probs.append("no word update found")
+        if undec and not probs:
+            out.append((b, "%s|op fidelity" % b.key, "undecided", "every word update is `%s`; %s" % (b.name, "; ".join(dict.fromkeys(undec)))))
+            continue
         out.append((b, "%s|op fidelity" % b.key, "violation" if probs else "pass",
                     "; ".join(dict.fromkeys(probs)) if probs else "%d word updates, each `%s` with the same-index rhs word / zero" % (len(ws), b.name)))
     return out
@@ -760,7 +770,13 @@ def check_c03(ctx, rep, tier):
     counts = run_mask(ctx, rep)
     rep.count("writer_classes", counts)
     rep.floor("raw storage writers", sum(counts.values()), 122)
-    rep.floor("K0 canonicalisers", counts.get("K0", 0), 1)
+    k0 = counts.get("K0", 0)
+    if not k0:
+        # the canonicaliser may have been moved into a free helper that is judged where it is called: its written-out
+        # loop is then recognised at the call sites (mask events of the `mod2n` form)
+        k0 = sum(1 for b in crate.bodies if b.self_family in ("Bvf", "Bvd")
+                 and any(m.form == "mod2n" for m in mask.find_mask_events(b, storage.events(b))))
+    rep.floor("K0 canonicalisers", k0, 1)
     rep.floor("K1 masked-end writers", counts.get("K1", 0), 30)
     rep.floor("K2 length-masked set_int", counts.get("K2", 0), 2)
     rep.floor("shrinking/growing length stores", run_shrink(ctx, rep), 10)
@@ -810,7 +826,9 @@ def check_c01(ctx, rep, tier):
                     select=lambda b, k: any(x in k for x in ("mask", "cadd", "csub", "wmul")))
     rep.floor("word primitive copies compared (SIB)", n, 32)
     n = run_generic(ctx, rep, "PROFILE", checked_arith, trusted_rule="PROFILE-TABLE")
-    rep.floor("overflow-checked arithmetic sites in kernels (PROFILE)", n, 27)
+    # sites exist only where a kernel written in the impl performs checked arithmetic (moving the multiplication loops into
+    # a shared helper removes theirs): the floor is one implementation's worth
+    rep.floor("overflow-checked arithmetic sites in kernels (PROFILE)", n, 27, need=9)
     run_dbgfx(ctx, rep, lambda b, k: b.trait in ("Add", "Sub", "Mul", "AddAssign", "SubAssign", "MulAssign") or b.name in ("cadd", "csub", "wmul", "mod2n"))
     counts = run_fwd(ctx, rep, ops=("Add", "Sub", "Mul"))
     _fwd_floor(rep, counts, "+ - *", 350, 12)
@@ -876,6 +894,8 @@ def check_c05(ctx, rep, tier):
                 select=lambda b, k: b.name in ("shl_in", "shr_in") or b.trait in SHIFT_TRAITS)
     n = run_generic(ctx, rep, "OVF-SHIFT", arith.shift_amount_arith, configs=("dbg",), trusted_rule="OVF-SHIFT-TABLE")
     rep.floor("overflow-checked arithmetic on the shift amount in the kernels", n, 54, need=18)
+    # word-at-a-time shifts that move words in place (copy_within) must clear exactly the words they vacate
+    run_generic(ctx, rep, "MOVEFILL", f2.move_fill)
     n = run_generic(ctx, rep, "RET", shl_in_return)
     rep.floor("shl_in/shr_in implementations", n, 4)
     run_dbgfx(ctx, rep, lambda b, k: b.trait in SHIFT_TRAITS or b.name in ("shl_in", "shr_in"))
@@ -931,6 +951,8 @@ def check_c09(ctx, rep, tier):
     n = run_generic(ctx, rep, "REV", cmp.rev_parity)
     rep.floor("delegating comparisons", n, 25)
     run_generic(ctx, rep, "ZIPREF", f2.zip_by_ref, select=lambda b, k: b is not None and b.name in ("eq", "ne", "cmp", "partial_cmp", "lt", "le", "gt", "ge"))
+    # a comparison that inspects "the rest of the longer operand" must read that operand, not the shorter one
+    run_generic(ctx, rep, "VACUOUS", f2.vacuous_reads)
     n = run_generic(ctx, rep, "KERNEL", cmp.kernel_shape)
     # comparisons rewritten with iterator adaptors are reported as undecided by REV: they still count as located kernels
     n = len({i["key"].split("|")[0] for i in rep.instances if (i["rule"] == "KERNEL" and not i["key"].startswith("SIB"))
@@ -949,7 +971,9 @@ def check_c09(ctx, rep, tier):
 
 def check_c10(ctx, rep, tier):
     n = run_generic(ctx, rep, "HASH", cmp.hash_taint)
-    rep.floor("hash sinks / loop bounds / mode checks", n, 7)
+    # three Hash impls (one sink each) and the mode check are the anchors; the loop-bound instances exist only while the
+    # feeding loop is written in the impl itself
+    rep.floor("hash sinks / loop bounds / mode checks", n, 7, need=4)
     run_generic(ctx, rep, "UNWRAP", unwrap.sites, configs=("dbg",), select=lambda b, k: b.name == "hash")
     run_dbgfx(ctx, rep, lambda b, k: b.name == "hash")
     # Hash is consistent with Eq only if Eq itself is not too lenient: a zip/by_ref equality that skips a word makes
@@ -957,6 +981,7 @@ def check_c10(ctx, rep, tier):
     run_generic(ctx, rep, "ZIPREF", f2.zip_by_ref, select=lambda b, k: b is not None and b.name in ("eq", "ne", "hash"))
     # hash feeds significant_bits() = len - leading_zeros() words: the scans it relies on must address the used words
     run_generic(ctx, rep, "ENDANCHOR", f2.end_anchored_reads)
+    run_generic(ctx, rep, "VACUOUS", f2.vacuous_reads, select=lambda b, k: b is not None and b.name in ("eq", "ne", "hash"))
     n = run_generic(ctx, rep, "SIB", f2.word_primitives, select=lambda b, k: "leading_zeros" in k)
     rep.floor("per-word leading_zeros primitives (SLOT)", n, 6)
     # Hash for Bvf/Bvd feeds raw storage words: it is in the reliance set of the padding invariant, so the writer
@@ -1054,7 +1079,9 @@ def bv_source_dispatch(crate):
 
 def check_c11(ctx, rep, tier):
     n = run_generic(ctx, rep, "LEN", f2.length_effects, select=_is_int_conv)
-    rep.floor("integer conversion length effects", n, 18)
+    # one instance per constructed aggregate: merging the two arms of TryFrom<uN> for Bvf into one constructor legitimately
+    # removes six of them, so the floor is the number of conversion impls (12), not of aggregates (18)
+    rep.floor("integer conversion length effects", n, 18, need=12)
     n = run_generic(ctx, rep, "GUARD-PRED", err_predicates, select=_is_int_conv)
     rep.floor("overflow predicates of integer conversions", n, 19)
     n = run_generic(ctx, rep, "UNWRAP", unwrap.sites, configs=("dbg",), select=_is_int_conv)
@@ -1081,6 +1108,10 @@ def _is_impl_conv(b, k):
 def check_c12(ctx, rep, tier):
     n = run_generic(ctx, rep, "LEN", f2.length_effects, select=_is_impl_conv)
     rep.floor("conversion length effects", n, 5)
+    # conversions assembled from other conversions + resize/push...: callee length effect composed with the body's arithmetic,
+    # per path (expected count on the reviewed tree: 0 - every conversion builds its aggregate itself)
+    from . import lenflow
+    run_generic(ctx, rep, "LENFLOW", lenflow.conversion_lengths)
     n = run_generic(ctx, rep, "GUARD-PRED", err_predicates, select=_is_impl_conv)
     rep.floor("capacity predicates of conversions", n, 2)     # a conversion may delegate to a sibling that owns the predicate
     counts = run_mask(ctx, rep, select=lambda w: _is_impl_conv(w.body, ""))
@@ -1179,6 +1210,10 @@ def check_c18(ctx, rep, tier):
     rep.floor("Bvd users of data.len()", run_used(ctx, rep), 7)
     n = run_generic(ctx, rep, "GUARD-BVP", bv_to_bvp_guards)
     rep.floor("Bv -> inline operation calls", n, 11)
+    # "at every point in any history len <= capacity" also covers the fixed type (and the inline mode of Bv, which is a Bvf):
+    # every length growth / construction of a Bvf is dominated by a capacity comparison whose failing edge panics / errs
+    n = run_generic(ctx, rep, "GUARD-CAP", guard.capacity_guards, trusted_rule="GUARD-CAP-TABLE")
+    rep.floor("Bvf length growth / construction sites", n, 28)
     run_generic(ctx, rep, "ORDER", f2.trait_defaults, select=lambda b, k: any(x in k for x in ("Extend", "FromIterator")))
     n = run_generic(ctx, rep, "SIB-CAP", bv_reserve_shape)
     rep.floor("capacity slots / mode predicates", n, 9)
@@ -1377,16 +1412,18 @@ _ADDENDA = {
     "C07": _DBG,
     "C08": "SHRINK/MASK on resize: split_off/split/truncate leave the low part in place through resize(index), which must clear what it drops. " + _DBG,
     "C09": "ZIPREF: the left operand of a zip over by_ref() iterators is not consumed again (zip drops one of its items). Comparing raw word slices "
-           "of different lengths is lexicographic, not numeric (violation); equal explicit lengths or iterator adaptors are undecided.",
+           "of different lengths is lexicographic, not numeric (violation); equal explicit lengths or iterator adaptors are undecided. VACUOUS: a word "
+           "test over the index range [a.int_len(), b.int_len()) that reads a (always its zero extension) examines the wrong operand.",
     "C10": "ZIPREF on eq/hash (an equality that skips a word makes values with different hashes equal); the hasher may be fed from a closure or "
            "from a helper introduced after the review (tainted through them). ENDANCHOR: a reversed walk over a vector's whole allocation limited "
            "to a number of used words starts at the wrong word when there is spare capacity. SLOT: each word type's leading_zeros is the std one. " + _DBG,
     "C11": "NOPANIC: in vector -> integer conversions every bounds check is discharged by a loop bound over the used words or a guard on the storage "
            "length, and there is no explicit panic. " + _DBG,
-    "C12": "POS: a word index taken from enumerate() behind a filtering adaptor counts surviving items, not positions. " + _DBG,
+    "C12": "LENFLOW: a conversion assembled from another conversion plus resize/push/... has, on every path, the source's length (callee length "
+           "effect composed with the body's arithmetic; refuted by a small concrete model, else undecided). POS: a word index taken from enumerate() behind a filtering adaptor counts surviving items, not positions. " + _DBG,
     "C13": _DBG,
     "C15": _DBG,
-    "C18": "ORDER: extend/collect reserve the size hint and then push (each push re-checks capacity / promotes); with_capacity allocates "
+    "C18": "GUARD-CAP: len <= capacity for the fixed type too (every Bvf growth / construction is capacity-checked in both profiles). ORDER: extend/collect reserve the size hint and then push (each push re-checks capacity / promotes); with_capacity allocates "
            "capacity_from_bit_len(c) words; promotion/demotion predicates are matched as relations (any spelling). " + _DBG,
     "C19": "GUARD-PRED: the error predicates on the Bvf side are exact, not merely present. DEBUG-IDX: the index assertion's passing edge dominates "
            "every return. " + _DBG,
